@@ -17,7 +17,12 @@ EXTRA = {"C05_B": ["C17"], "C15_B": ["C15", "C16"], "C16_B": ["C16", "C15"], "C1
          "C04_E": ["C14", "C04"], "C05_E": ["C17", "C05"], "C05_F": ["C13", "C05"], "C07_E": ["C13", "C07"], "C07_F": ["C17", "C07"],
          "C08_E": ["C15", "C08"], "C15_E": ["C03", "C15"], "C15_F": ["C01", "C15"], "C17_E": ["C01", "C17"],
          "C01_H": ["C17", "C01"], "C02_G": ["C17", "C02"], "C04_G": ["C13", "C04"], "C05_G": ["C07", "C05"], "C07_G": ["C15", "C07"],
-         "C07_H": ["C17", "C07"], "C08_H": ["C17", "C08"], "C10_G": ["C02", "C10"], "C15_H": ["C07", "C15"]}
+         "C07_H": ["C17", "C07"], "C08_H": ["C17", "C08"], "C10_G": ["C02", "C10"], "C15_H": ["C07", "C15"],
+         "C02_J": ["C02", "C15", "C17"], "C03_I": ["C03", "C15", "C16"], "C04_I": ["C04", "C15", "C06"], "C05_I": ["C05", "C15", "C17"],
+         "C05_J": ["C05", "C16", "C15"], "C06_I": ["C06", "C17"], "C07_J": ["C07", "C15"], "C08_I": ["C08", "C15", "C16"],
+         "C08_J": ["C08", "C13"], "C09_I": ["C09", "C13"], "C10_I": ["C10", "C15"], "C10_J": ["C10", "C15", "C16"],
+         "C15_I": ["C15", "C17"], "C15_J": ["C15", "C09"], "C20_I": ["C20", "C12", "C15"],
+         "C01_I": ["C01", "C03"], "C01_J": ["C01", "C03"], "C18_I": ["C18", "C17"]}
 
 
 def sh(cmd):
@@ -66,7 +71,9 @@ def main():
                       + ("; third round: the agent saw summaries of A-D and was asked for cross-API interactions, numerical edges far from the "
                          "small cases, argument-type sensitivity, rarely used entry points and three-step histories" if mid[-1] in "EF" else "")
                       + ("; fourth round: the agent saw one-line summaries of A-F and was asked to go through the statement clause by clause and "
-                         "break clauses no earlier change touched" if mid[-1] in "GH" else ""),
+                         "break clauses no earlier change touched" if mid[-1] in "GH" else "")
+                      + ("; fifth round: the agent saw one-line summaries of A-H and was asked for changes as hard to expose as it could make them "
+                         "(medium-size irregular inputs, histories across objects, argument forms, float ties, cooperating edits)" if mid[-1] in "IJ" else ""),
             "description_and_what_it_needs_to_manifest": desc.strip(),
             "confirmed_in_scratch_worktree": {
                 "procedure": "in /tmp/wt/%s: demo on clean tree, git apply patch, 42 stable tests (guard off), demo again, revert" % prop,
